@@ -27,7 +27,8 @@ func uf(name string, res Sort, args ...Term) Term {
 	for i, a := range args {
 		ss[i] = a.Sort
 	}
-	return App(Func(name, ss, res), res, args...)
+	// the arity is part of the SMT name: a spec function may be applied to values of different shapes
+	return App(Func(fmt.Sprintf("%s@%d", name, len(args)), ss, res), res, args...)
 }
 
 func isPow2Minus1(n *big.Int) (uint, bool) {
